@@ -94,13 +94,13 @@ def gen_inherited(rnd, i, single=False):
     return {"name": pname, "key": key, "alts": alts, "mode": "inherited" + ("-explicit" if explicit else "") + ("-single" if single else ""), "src": lines}
 
 
-def run_discr(seed, budget, want=("dispatch", "roundtrip", "tagged", "purity")):
+def run_discr(seed, budget, want=("dispatch", "roundtrip", "tagged", "purity"), single=True):
     from apischema import deserialize, serialize, ValidationError
     rnd = random.Random(seed * 13 + 1); n = 80 * budget
     unions = [gen_union(rnd, i) if rnd.random() < 0.8 else gen_inherited(rnd, i) for i in range(n)]
     # a discriminated parent with exactly one subclass (its own random stream: the other families stay what they were)
     rnd1 = random.Random(seed * 17 + 5)
-    unions += [gen_inherited(rnd1, n + j, single=True) for j in range(2 * budget)]
+    if single: unions += [gen_inherited(rnd1, n + j, single=True) for j in range(2 * budget)]
     src = list(HEADER)
     for u in unions: src += u["src"] + [""]
     src += ["class TU(TaggedUnion):", "    a: Tagged[int]", "    b: Tagged[str]", ""]
